@@ -10,7 +10,7 @@ from pysym.values import G, SInt, SBool, Unknown, bvv, zt, zb, binop, Unsupporte
 from pysym.engine import NORMAL, RAISE
 from vlib.ob import Ob
 from vlib import oracle as O
-from vlib.oracle import B, ref_round, canonical, is_tuple, value_matches
+from vlib.oracle import B, ref_round, canonical, is_tuple, value_matches, RNDS
 from checks.fam_arith import finish, wbump, FALSE, TRUE
 
 QMAX = 64
@@ -189,3 +189,100 @@ def const_round_concrete(p, m):
         if not ok:
             return False, '%s(prec=%d, rnd=%r): %s' % (name, q, rnd, det[:300])
     return None, 'UNCONFIRMED: the wrapper is not correct for every constant (solver model c = %r), but the real %s is rounded correctly at every precision up to 3000 bits' % (m.get('c'), name)
+
+
+# ------------------------------------------------------------------------------ the context-level constant objects (mp.pi, mp.e, ...)
+def _drive_const_ctx(k, ctx, via1, p1, r1, via2, p2, r2):
+    """two requests in sequence on the same constant object; each either k(prec=, rounding=) or the implicit use (the _mpf_
+    property, which reads the context's current precision and rounding mode)"""
+    if via1 == 'call':
+        a = k(prec=p1, rounding=r1)._mpf_
+    else:
+        ctx._prec_rounding[0] = p1
+        ctx._prec_rounding[1] = r1
+        a = k._mpf_
+    if via2 == 'call':
+        b = k(prec=p2, rounding=r2)._mpf_
+    else:
+        ctx._prec_rounding[0] = p2
+        ctx._prec_rounding[1] = r2
+        b = k._mpf_
+    return a, b
+
+
+_drive_const_ctx._pysym_interpret = True
+
+
+def const_ctx(p):
+    """history independence of the context's constant objects: for any two requests in sequence (symbolic precisions p1, p2 in
+    1..2^20, given rounding modes, explicit call or implicit use), each result is exactly what the libmp constant function
+    (replaced by an arbitrary function of (precision, rounding mode)) returns for THAT request's precision and rounding mode."""
+    import mpmath
+    import z3
+    from checks.fam_prec import ufs, make_models
+    mp = mpmath.mp.clone()
+    k = getattr(mp, p.get('name', 'pi'))
+    r1, r2, via1, via2 = p['r1'], p['r2'], p['via1'], p['via2']
+    Wd = 64
+    PD, DP = ufs()
+    ob = Ob(Wd, models=make_models(PD, DP), timeout_s=p.get('_t', 30))
+    p1 = ob.int('p1', 1, 1 << 20)
+    p2 = ob.int('p2', 1, 1 << 20)
+    S = z3.BitVecSort(Wd)
+    FM = {r: z3.Function('const_man_' + r, S, S) for r in RNDS}
+    FE = {r: z3.Function('const_exp_' + r, S, S) for r in RNDS}
+
+    def val(pt, r):
+        return (0, SInt(FM[r](pt), 1, (1 << 62) - 1), SInt(FE[r](pt), -(1 << 30), 1 << 30), 62)
+
+    def m_func(eng, st, args, kw, fr):
+        q, r = args[0], args[1]
+        if not isinstance(r, str) or r not in FM:
+            raise Unsupported('constant function called with rounding %r' % (r,))
+        t = zt(q)
+        G.SIDE.append(z3.And(FM[r](t) >= B(1), FM[r](t) <= B((1 << 62) - 1), FE[r](t) >= B(-(1 << 30)), FE[r](t) <= B(1 << 30)))
+        return [(st, NORMAL, val(t, r))]
+    ob.eng.models[k.func] = m_func
+    import checks.fam_cache as me
+    outs = ob.run(me._drive_const_ctx, [k, mp, via1, p1, r1, via2, p2, r2])
+
+    def good(val_, st):
+        a, b = val_
+        gs = []
+        for got, pt, r in ((a, zt(p1), r1), (b, zt(p2), r2)):
+            if not isinstance(got, tuple) or len(got) != 4:
+                return False
+            gs.append(zt(got[1]) == FM[r](pt))
+            gs.append(zt(got[2]) == FE[r](pt))
+        return [z3.And(gs)]
+    return finish(ob, ob.prove(outs, good))
+
+
+def const_ctx_concrete(p, m):
+    import mpmath
+    mp = mpmath.mp.clone()
+    name = p.get('name', 'pi')
+    k = getattr(mp, name)
+    r1, r2, via1, via2 = p['r1'], p['r2'], p['via1'], p['via2']
+    p1, p2 = m.get('p1', 53), m.get('p2', 53)
+    # an arbitrary function of (precision, mode) cannot be replayed; the real constant function is used, and as its value may by
+    # chance not distinguish the two requests at the model's precisions, precisions around them are scanned as well
+    cands = [(p1, p2)] + [(q, q) for q in (p2, p1, 10, 30, 53, 64, 100, 200)] + [(q1, q2) for q1 in (p1, 53) for q2 in (p2, 60)]
+    for q1, q2 in cands:
+        if q1 > 20000 or q2 > 20000:
+            continue
+        fresh = mpmath.mp.clone()
+        kk = getattr(fresh, name)
+
+        def req(obj, ctx, via, q, r):
+            if via == 'call':
+                return obj(prec=q, rounding=r)._mpf_
+            ctx._prec_rounding[0], ctx._prec_rounding[1] = q, r
+            return obj._mpf_
+        a = req(kk, fresh, via1, q1, r1)
+        b = req(kk, fresh, via2, q2, r2)
+        wa, wb = kk.func(q1, r1), kk.func(q2, r2)
+        if a != wa or b != wb:
+            return False, ('%s: request 1 (%s, prec %d, %r) then request 2 (%s, prec %d, %r) on the same constant object gives %r, %r; '
+                           'each alone gives %r, %r' % (name, via1, q1, r1, via2, q2, r2, a, b, wa, wb))
+    return None, 'UNCONFIRMED: sequence-dependent for an arbitrary constant function, but the real %s shows no difference at the scanned precisions' % name
